@@ -93,7 +93,20 @@ class ModPoly:
         if h is not None:
             r = h
         elif op in ('add', 'sub') and e[1] in (64, 128):
-            r = self.add(self.of(e[2]), self.of(e[3]), 1 if op == 'add' else -1)
+            r = None
+            if op == 'add' and self.rng is not None:
+                # the interval engine reads `x + C` with C >= 2^(bits-1) as the subtraction x - (2^bits - C) when that is
+                # wrap-free; the polynomial must describe the same reading
+                M = 1 << e[1]
+                for x, y in ((e[2], e[3]), (e[3], e[2])):
+                    if is_int(y) and y >= (M >> 1) and isinstance(x, Sym):
+                        rx, rv = self.rng(x), self.rng(v)
+                        k = M - y
+                        if rx is not None and rv is not None and rv == (rx[0] - k, rx[1] - k):
+                            r = self.add(self.of(x), {(): k % q}, -1)
+                        break
+            if r is None:
+                r = self.add(self.of(e[2]), self.of(e[3]), 1 if op == 'add' else -1)
         elif op == 'mul' and e[1] in (64, 128):
             r = self.mul(self.of(e[2]), self.of(e[3]))
         elif op == 'shl' and is_int(e[3]):
@@ -206,10 +219,31 @@ class ModPoly:
             r = self.add(self.of(e[1]), self.scale(self.of(e[2]), 1 << 32))
         elif op == 'in':
             r = {(self.atom(e),): 1}
+        elif op == 'urem' and e[1] in (32, 64) and is_int(e[3]) and e[3] > 0 and e[3] % q == 0:
+            # t mod d = t - d*floor(t/d) and q | d: congruent to t
+            r = self.of(e[2])
+        elif op == 'xor' and e[1] == 64 and self.rng is not None and any(is_int(x) and x == 1 << 63 for x in e[2:4]):
+            # flipping the top bit adds or subtracts 2^63 depending on the (known) sign case
+            t = e[3] if is_int(e[2]) else e[2]
+            rg = self.rng(t) if isinstance(t, Sym) else None
+            if rg is not None and rg[0] >= 0 and rg[1] < (1 << 63):
+                r = self.add(self.of(t), {(): (1 << 63) % q})
+            elif rg is not None and rg[0] >= (1 << 63) and rg[1] < (1 << 64):
+                r = self.add(self.of(t), {(): (1 << 63) % q}, -1)
         if r is None:
             r = {(self.atom(('node', v)),): 1}
         self.memo[v] = r
         return r
+
+    def undecided(self, *polys):
+        """True if a polynomial still contains an operation the rewriting does not understand (no verdict possible)"""
+        inv = {a: k for k, a in self.atoms.items()}
+        for p in polys:
+            for m in p:
+                for a in m:
+                    if inv[a][0] in ('node', 'opaque'):
+                        return True
+        return False
 
     def show(self, p, n=6):
         inv = {a: k for k, a in self.atoms.items()}
